@@ -68,6 +68,14 @@ pub fn refusal_probe(r: &mut crate::run::Runner, step: &Step) {
             };
             (pq_u(&preq, "out_whole"), *limit, pos.size > 0, format!("engine,close,{}", if pos.size > 0 { "long" } else { "short" }), Op::Close { vamm: *vamm, limit: 0 })
         }
+        Op::Liquidate { vamm, trader, limit } if r.w.cfg.kind == WorldKind::Standard => {
+            let t = r.w.resolve(trader);
+            let pos = match r.obs.position(*vamm, &t) {
+                Some(p) if p.size != 0 => p.clone(),
+                _ => return,
+            };
+            (pq_u(&preq, "out_whole"), *limit, pos.size > 0, format!("engine,liquidate,{}", if pos.size > 0 { "long" } else { "short" }), Op::Liquidate { vamm: *vamm, trader: trader.clone(), limit: 0 })
+        }
         _ => return,
     };
     let qv = match quoted {
@@ -81,16 +89,33 @@ pub fn refusal_probe(r: &mut crate::run::Runner, step: &Step) {
     let a = step.actor.clone();
     let f = step.funds;
     let snap_before = r.w.dump();
+    // whose position the call acts on (for "did the unlimited call remove the whole position?")
+    let subject: Option<(usize, String)> = match &step.op {
+        Op::Close { vamm, .. } => Some((*vamm, actor.clone())),
+        Op::Liquidate { vamm, trader, .. } => Some((*vamm, r.w.resolve(trader))),
+        _ => None,
+    };
     let (alt, whole) = r.fork(|w| {
         let o = w.exec(&a, &unlimited, f, None);
-        // for an engine close: did the unlimited call close the whole position?
-        (o, true)
+        let gone = match &subject {
+            Some((v, t)) => w.q(&w.addrs.engine, json!({"position": {"vamm": w.addrs.vamms[*v], "trader": t}})).is_err(),
+            None => true,
+        };
+        (o, gone)
     });
-    let _ = whole;
     let _ = snap_before;
     r.ev.eval(true, &("refusal", level.clone(), rel(qv, limit), alt.ok), || json!({"level": level, "quoted": qv.to_string(), "limit": limit.to_string(), "refused_with_limit": true, "accepted_without_limit": alt.ok}));
     if alt.ok {
         // an engine close that turns partial without the limit is outside the statement ("whole-position ClosePosition")
+        if let Op::Liquidate { vamm, trader, .. } = &step.op {
+            // only a whole-position liquidation carries the caller's limit unchanged
+            let t = r.w.resolve(trader);
+            let pos_size = r.obs.position(*vamm, &t).map(|p| p.size).unwrap_or(0);
+            let moved = alt.events.iter().filter(|e| e.ty == "wasm").flat_map(|e| e.attributes.iter()).find(|a| a.key == "base_asset_amount").and_then(|a| a.value.parse::<u128>().ok()).unwrap_or(0);
+            if moved != pos_size.unsigned_abs() || !whole {
+                return;
+            }
+        }
         if let Op::Close { vamm, .. } = &step.op {
             let pos_size = r.obs.position(*vamm, &actor).map(|p| p.size).unwrap_or(0);
             let moved = alt.events.iter().filter(|e| e.ty == "wasm").flat_map(|e| e.attributes.iter()).find(|a| a.key == "base_asset_amount").and_then(|a| a.value.parse::<u128>().ok()).unwrap_or(0);
@@ -189,6 +214,36 @@ pub fn step(ctx: &Ctx, w: &World, ev: &mut Ev) {
                 }
                 if quote_moved(ctx, v) != class.n {
                     ev.violation("requested_side_inexact", &format!("engine,{},{}", class.kind.s(), side.js()), json!({"requested": class.n.to_string(), "moved": quote_moved(ctx, v).to_string()}));
+                }
+            }
+        }
+        Op::Liquidate { vamm, trader, limit } if w.cfg.kind == WorldKind::Standard => {
+            // whole-position liquidation: the caller's limit reaches the vAMM's closing swap unchanged
+            let v = *vamm;
+            let t = w.resolve(trader);
+            let pos = match ctx.pre.position(v, &t) {
+                Some(p) if p.size != 0 => p.clone(),
+                _ => return,
+            };
+            let qv = match pq_u(ctx.preq, "out_whole") {
+                Some(x) => x,
+                None => return,
+            };
+            let moved = ctx.post.vamms[v].size - ctx.pre.vamms[v].size;
+            let whole = ctx.out.ok && moved == -pos.size && ctx.post.position(v, &t).is_none();
+            let receiving = pos.size > 0;
+            if *limit != 0 {
+                ev.eval(true, &("engine_liquidate", receiving, rel(qv, *limit), ctx.out.ok, whole), || {
+                    json!({"level": "engine", "liquidate": if receiving { "long" } else { "short" }, "size": pos.size.to_string(), "quoted_quote": qv.to_string(), "limit": limit.to_string(), "executed": ctx.out.ok, "whole": whole})
+                });
+            }
+            if whole {
+                if wrong_side(receiving, qv, *limit) {
+                    ev.violation("limit_ignored", &format!("engine,liquidate,{},{}", if receiving { "long" } else { "short" }, rel(qv, *limit)), json!({"quoted": qv.to_string(), "limit": limit.to_string()}));
+                }
+                let dq = quote_moved(ctx, v);
+                if dq != qv {
+                    ev.violation("quote_ne_exec", &format!("engine,liquidate,{}", if receiving { "long" } else { "short" }), json!({"quoted": qv.to_string(), "executed": dq.to_string()}));
                 }
             }
         }
